@@ -603,6 +603,29 @@ Definition fold_spec (neg : bool) (D nf e : Z) : parse_s :=
   let '(c, n) := if 0 <=? k then (D, k) else (D * 10 ^ (- k), 0) in
   if MAXC <? c then PSErr else PSOk (mkdec (if neg then - c else c) n).
 
+(* the form the specification uses: no power with an unbounded exponent is ever formed *)
+Definition fold_spec2 (neg : bool) (D nf e : Z) : parse_s :=
+  let k := nf - e in
+  if 18 <? k then PSErr else
+  if 0 <=? k then (if MAXC <? D then PSErr else PSOk (mkdec (if neg then - D else D) k)) else
+  if D =? 0 then PSOk (mkdec 0 0) else
+  if 39 <=? - k then PSErr else
+  let c := D * 10 ^ (- k) in
+  if MAXC <? c then PSErr else PSOk (mkdec (if neg then - c else c) 0).
+
+Lemma fold_spec2_eq neg D nf e : 0 <= D -> fold_spec2 neg D nf e = fold_spec neg D nf e.
+Proof.
+  intros HD. unfold fold_spec2, fold_spec. cbv zeta. set (k := nf - e).
+  destruct (18 <? k); [reflexivity|]. destruct (Z.leb_spec 0 k); [reflexivity|].
+  destruct (Z.eqb_spec D 0) as [->|N0].
+  - rewrite Z.mul_0_l. rewrite MAXC_val. destruct neg; reflexivity.
+  - destruct (Z.leb_spec 39 (- k)) as [H39|H39]; [|reflexivity].
+    assert (10 ^ 39 <= 10 ^ (- k)) by (apply Z.pow_le_mono_r; lia).
+    assert (MAXC < 10 ^ 39) by (rewrite MAXC_val; reflexivity).
+    assert (1 * 10 ^ (- k) <= D * 10 ^ (- k)) by (apply Z.mul_le_mono_nonneg_r; lia).
+    destruct (Z.ltb_spec MAXC (D * 10 ^ (- k))); [reflexivity|lia].
+Qed.
+
 Definition acc_fold (p : parse_s) (o : out) : bool :=
   match p, o with
   | PSOk d, OV e => dec_eqb d e
@@ -699,9 +722,10 @@ Proof.
     rewrite Hc.
     destruct (2 <? n) eqn:Hn2; [discriminate Hk|].
     destruct ((digits_value (ip ++ fp) =? 0) && (38 <? e - Z.of_nat (length fp))) eqn:HK4; [discriminate Hk|].
-    apply (fold_acc pf neg (digits_value (ip ++ fp)) (len fp) e n); try assumption.
-    + rewrite digits_value_dv. apply dv_bound. apply Forall_app. auto.
-    + unfold len in *. lia.
+    assert (HD : 0 <= digits_value (ip ++ fp)).
+    { rewrite digits_value_dv. apply dv_bound. apply Forall_app. auto. }
+    pose proof (fold_acc pf neg (digits_value (ip ++ fp)) (len fp) e n HD ltac:(unfold len in *; lia) He Hn Hn2 HK4) as A.
+    rewrite <- (fold_spec2_eq neg _ _ _ HD) in A. exact A.
 Qed.
 
 (* ---- what str_to_dec can return; totality and profile independence ---- *)
